@@ -7,6 +7,8 @@ CONSTANTS
     InitKinds = {"try_init_slot", "init_slot"}
     ObsOps = {"is_enabled", "emit", "probe"}
     MaxObs = 1
+    HandleOps = {}
+    MaxHandle = 0
     Design = "oncelock"
 INVARIANTS TypeOK AtMostOneWinner ExactlyOneWinner LosersNeverReceive AllFiveTogether
     EnabledMeansInstalled InertBefore Stable
